@@ -14,11 +14,18 @@ One(c, q) == [ngbs |-> Zero(Ngbs(c.pos, c.h2, Q3(q), c.S, c.per = 1)),
               sphere_strict |-> Zero(SphereStrict(c.pos, c.h2, Q3(q), q[4], c.S, c.per = 1)),
               closest |-> Zero(Closest(c.pos, Q3(q), c.S, c.per = 1)),
               closest_open |-> Zero(Closest(c.pos, Q3(q), c.S, FALSE))]
+IterOK(c) == IF "iter" \in DOMAIN c
+             THEN [k \in 1 .. Len(c.iter) |->
+                     [exhaustive |-> IterExhaustive(c.pos, c.iter[k].rank, c.iter[k].dup, c.iter[k].count),
+                      complete |-> IterComplete(c.pos, c.iter[k].i + 1, c.iter[k].rank, c.iter[k].stages)]]
+             ELSE <<>>
+IterResults == [i \in 1 .. Len(Cases) |-> IterOK(Cases[i])]
 Results == [i \in 1 .. Len(Cases) |-> [j \in 1 .. Len(Cases[i].q) |-> One(Cases[i], Cases[i].q[j])]]
 AllSane == \A i \in 1 .. Len(Cases) : \A j \in 1 .. Len(Cases[i].q) :
               Sane(Cases[i].pos, Cases[i].h2, Q3(Cases[i].q[j]), Cases[i].q[j][4], Cases[i].S, Cases[i].per = 1)
 ASSUME AllSane
 ASSUME PrintT(<<"SEARCH", ToJson(Results)>>)
+ASSUME PrintT(<<"ITER", ToJson(IterResults)>>)
 VARIABLE x
 Init == x = 0
 Next == UNCHANGED x
